@@ -97,6 +97,10 @@ def run_cases(ctx: Ctx, cases: Iterable[Case], res: Result,
         for k, op in enumerate(case.ops):
             o = rd.do(op)
             outs.append(o)
+            if bad is None and o.startswith('wrong-local-flag'):
+                res.violations.append(Violation('wrong-local-flag', f"at {op!r} (step {k}): {o}", {**case.to_json(), 'failing_step': k}))
+                bad = (k, o, o)
+                rdec = None
             if bad is None and any(x and x[0] == 'raised' for x in rd.rec.inside):
                 res.violations.append(Violation('subscriber-view-raised', f"at {op!r} (step {k}) a subscriber looking at the decider from inside "
                                                 f"on_decider_update (size / all_runs / snapshot) got {rd.rec.inside[-1]}", {**case.to_json(), 'failing_step': k}))
